@@ -75,7 +75,7 @@ def c09(**p):
         R.shadows(c)
         mol = dom(c, p)
         for a in range(mol.n):
-            ex = {"x_coord": 1.5 * a - 0.0000004, "y_coord": -0.25 * a, "z_coord": 1234.5678915}
+            ex = {"x_coord": 1.5 * a - 0.0000004, "y_coord": -0.25 * a if a else -0.0, "z_coord": 1234.5678915 if a else 0.0000005}
             if c.flag(f"hc{a}"):
                 ex["chg"] = c.int(f"chg{a}", -15, 15)
                 c.assume(not_(eq(ex["chg"], 0)))
